@@ -68,6 +68,30 @@ def seeded_entries():
   return out
 
 
+def benign_entries(props):
+  """Behaviour-preserving refactorings written by independent maintainer-style
+  agents (benign/<area>/rNN.diff, each shown equivalent by a differential run
+  of its author): every check must stay silent on each of them.  C06 (clang,
+  slow) only runs on patches that touch a parser."""
+  out = []
+  d = os.path.join(VERIF, 'benign')
+  if not os.path.isdir(d):
+    return out
+  for area in sorted(os.listdir(d)):
+    for f in sorted(os.listdir(os.path.join(d, area))):
+      if not f.endswith('.diff'):
+        continue
+      pp = os.path.join(d, area, f)
+      text = open(pp, encoding='utf-8', errors='replace').read()
+      parser = 'parser_py/parse.py' in text or 'parser_cpp/' in text
+      for pid in props:
+        if pid == 'C06' and not parser:
+          continue
+        out.append(dict(id='benign-%s-%s-%s' % (area, f[:-5], pid), prop=pid, kind='twin',
+                        patch=pp, edits=[], rule=None))
+  return out
+
+
 def apply_patch(dst, patch):
   r = subprocess.run(['git', 'apply', '--unsafe-paths', '--directory=' + dst, patch],
                      capture_output=True, text=True, cwd=dst)
@@ -129,7 +153,7 @@ def run_one(entry, root):
     env = dict(os.environ, VERIF_EVIDENCE_DIR=os.path.join(tmp, 'ev'))
     p = subprocess.run([os.path.join(VERIF, 'check'), entry['prop'],
                         '--root', dst, '--tier', 'quick'],
-                       capture_output=True, text=True, env=env, timeout=600)
+                       capture_output=True, text=True, env=env, timeout=3000)
     out = p.stdout + p.stderr
     fired = [l for l in out.splitlines() if l.startswith('VIOLATION')]
     rules = sorted({l.split()[0] for l in out.splitlines()
@@ -151,7 +175,8 @@ def run_one(entry, root):
 
 def run(prop=None, jobs=16, root='/repo', only=None, quiet=False):
   props = sorted({e['prop'] for e in CATALOGUE})
-  entries = [e for e in CATALOGUE + seeded_entries() + transform_entries(props)
+  entries = [e for e in CATALOGUE + seeded_entries() + transform_entries(props) +
+             benign_entries(props)
              if (prop is None or e['prop'] == prop) and
              (only is None or e['id'] == only)]
   results = []
